@@ -351,6 +351,10 @@ def check_process_passthrough(ctx: Ctx, rule: str) -> None:
     calls = [n for n in ast.walk(f.node) if isinstance(n, ast.Call) and isinstance(n.func, ast.Attribute) and n.func.attr == "report_to_broker"]
     ctx.floor(rule, len(calls), 1, "report_to_broker calls in process()")
     own = {p.arg for p in f.params()}
+    rebound = sorted({n.id for n in ast.walk(f.node) if isinstance(n, ast.Name) and isinstance(n.ctx, (ast.Store, ast.Del)) and n.id in ("key", "payload", "parameters")})
+    ctx.check(not rebound, rule, f, "process() never re-binds the delivered key / payload / parameters", "the wire values stay what the broker delivered",
+              f"process() re-binds {rebound}: what is later requeued / reported under that name is no longer the delivered value (e.g. the resolved arguments instead of the bucket reference - "
+              "a retried or rescheduled message then carries another payload than was enqueued)", instance="process(): delivered values not re-bound")
     for c in calls:
         for i, nm in enumerate(names):
             if nm not in ("key", "payload", "parameters"):
